@@ -294,12 +294,14 @@ class Exec:
             self.pc.append(cond)
 
     # ================================================================ obligations
-    def emit(self, kind, goal, note=""):
-        """Obligation instance `pc |- goal` under the id <top function>/<kind>."""
+    def emit(self, kind, goal, note="", hyps=None):
+        """Obligation instance `pc |- goal` under the id <top function>/<kind>.  `hyps`: use these hypotheses instead of the path
+        condition (a cut that holds independently of the path is proved once from the entry hypotheses)."""
         goal = goal if not isinstance(goal, bool) else z3.BoolVal(goal)
         if self._dup or self.pos < len(self.prefix):
-            return      # this part of the run re-executes a prefix already explored: the obligation was emitted then
-        self.emitted.append(Emitted(f"{self.top_qual}/{kind}", list(self.pc), goal, note))
+            return False     # this part of the run re-executes a prefix already explored: the obligation was emitted then
+        self.emitted.append(Emitted(f"{self.top_qual}/{kind}", list(self.pc if hyps is None else hyps), goal, note))
+        return True
 
     def require(self, cond, exc_type, what):
         """A library / constructor precondition whose violation raises `exc_type`.
@@ -536,6 +538,14 @@ class Exec:
         for name, cond in con.pre(self, a):
             self.emit(f"pre.{name}@{short}#{k}", cond, note=f"in {f.func.qualname if f.func else '?'}")
             self.assume(cond)
+        top_con = self.registry.get(self.top_qual) if self.registry else None
+        if top_con is not None and hasattr(top_con, "audit") and getattr(self, "top_args", None) is not None:
+            # obligations the function under verification attaches to its calls (e.g. C06: what may enter a term it builds)
+            for name, cond in top_con.audit(self, fi.qualname, a, self.top_args):
+                self.emit(f"audit.{name}@{short}#{k}", cond, note=f"in {f.func.qualname if f.func else '?'}")
+        if fi.qualname == self.top_qual_inline_root and hasattr(con, "decreases") and getattr(self, "top_args", None) is not None:
+            # a recursive call: the contract's variant must strictly decrease in a well-founded order (termination)
+            self.emit(f"decreases@{short}#{k}", con.decreases(self, self.top_args, a), note=f"in {f.func.qualname if f.func else '?'}")
         exact = getattr(con, "raises_exact", True)
         for exc, cond in con.raises(self, a).items():
             if exact:
@@ -1329,6 +1339,15 @@ class Exec:
     def apply(self, f, args, kwargs):
         if isinstance(f, VSet) and hasattr(f, "nx_view"):
             return self.lib.call_view(self, f, args, kwargs)
+        if isinstance(f, VObj) and isinstance(f.cls, ClassInfo) and getattr(f.cls, "name", "") == "ProbabilityBuilderType" \
+                and len(args) == 1 and not kwargs and isinstance(args[0], (VSet, VSeq)) and getattr(args[0], "arity", 1) == 1:
+            # P(<collection of nodes>): the joint distribution over those variables -- an opaque probability term (its
+            # Distribution object is outside the model; only its class is known)
+            T = exprs.theory(self)
+            t = T.fresh("joint")
+            self.assume(T.is_cls(t, ["Probability"]))
+            self.assumption_notes.add("P(nodes) is an opaque probability term of class Probability")
+            return exprs.VExpr(t)
         if isinstance(f, VObj) and isinstance(f.cls, ClassInfo):
             m = self.repo.find_method(f.cls, "__call__")
             if m is not None:
